@@ -427,7 +427,7 @@ def run(ctx):
                 emit(dict(s, cuts=cuts, source=rng.choice(['file', 'iter']), expected=expected, allowed=allowed,
                           plan={}, empties=empties), 'no-injection')
     # ---- multiple faults, sampled
-    for i in range(ctx.pick(8000, 200000)):
+    for i in range(ctx.pick(8000, 1000000)):
         s = rng.choice(small if rng.random() < 0.9 else streams())
         n = len(content_of(s))
         cuts = cuts_for(rng, n)
